@@ -557,6 +557,19 @@ def single_namespace_rule(chk: Check, eng: Engine, rule: str) -> None:
             l = node.args[2] if len(node.args) > 2 else next((k.value for k in node.keywords if k.arg == "locals"), None)
             if l is None or (g is not None and norm(g) == norm(l)):
                 stale = _persistent_namespace(mod, node, g)
+                # precedence inside the one namespace: the bindings of this evaluation (matches, quantifier variables) override the spec's globals
+                encl = None
+                for f_ in ast.walk(mod.tree):
+                    if isinstance(f_, (ast.FunctionDef, ast.AsyncFunctionDef)) and any(x is node for x in ast.walk(f_)):
+                        encl = f_
+                order = _merge_order(encl, g)
+                roles = [_role(x) for x in order] if order else []
+                if "G" in roles and "L" in roles and max(i for i, r_ in enumerate(roles) if r_ == "G") > max(i for i, r_ in enumerate(roles) if r_ == "L"):
+                    chk.bad(rule, mod.relpath, node.lineno, mod.name, f"`{short(node, 70)}`: in the namespace built from {[short(x, 30) for x in order]} the spec's globals override the bindings of this evaluation",
+                            "a name defined by the spec's own code shadows a variable bound by a quantifier / comprehension of a constraint (or a `<symbol>` placeholder of the same name): "
+                            "`item = 999` in the spec makes `where all(int(item) >= 500 for item in *<num>)` true for every tree, so violating trees are emitted as solutions",
+                            keyparts="namespace-precedence")
+                    continue
                 if stale:
                     chk.bad(rule, mod.relpath, node.lineno, mod.name, f"`{short(node, 70)}` evaluates in a namespace that outlives the evaluation: {stale}",
                             "the variables bound for one evaluation (quantifier variables, matches) stay visible to the next ones and shadow the spec's own names, and the "
@@ -569,6 +582,50 @@ def single_namespace_rule(chk: Check, eng: Engine, rule: str) -> None:
                         "`where all(int(str(<s>)[i]) > 5 for i in range(2))` raises NameError and counts as failed for every tree", keyparts=f"two-namespaces|{norm(l)}")
     if n < 4:
         raise AnalysisError(f"only {n} eval/exec sites of spec text found")
+
+
+def _merge_order(fn: Optional[ast.AST], e: Optional[ast.AST], depth: int = 0) -> Optional[list[ast.AST]]:
+    """The mappings a namespace expression is merged from, lowest precedence first (a later one overrides an earlier one); None = not a
+    merge this analysis understands.  Covers `{**a, **b}`, `a | b`, `dict(a)`, `dict(a, **b)`, `ChainMap(b, a)`, `a.copy()`, and a local that
+    is defined by one of those and then `.update(x)`-ed in straight-line order."""
+    if e is None:
+        return None
+    if isinstance(e, ast.Dict):
+        out: list[ast.AST] = []
+        for k, v in zip(e.keys, e.values):
+            if k is None:
+                out.append(v)
+        return out if len(out) >= 1 else None
+    if isinstance(e, ast.BinOp) and isinstance(e.op, ast.BitOr):
+        l, r = _merge_order(fn, e.left, depth) or [e.left], _merge_order(fn, e.right, depth) or [e.right]
+        return l + r
+    if isinstance(e, ast.Call) and isinstance(e.func, ast.Name) and e.func.id == "dict" and e.args:
+        return [e.args[0]] + [k.value for k in e.keywords if k.arg is None]
+    if isinstance(e, ast.Call) and call_name(e) == "ChainMap" and e.args:
+        return list(reversed(e.args))
+    if isinstance(e, ast.Call) and isinstance(e.func, ast.Attribute) and e.func.attr == "copy" and not e.args:
+        return [e.func.value]
+    if isinstance(e, ast.Name) and fn is not None and depth < 2:
+        defs = [a for a in ast.walk(fn) if isinstance(a, ast.Assign) and any(isinstance(t, ast.Name) and t.id == e.id for t in a.targets)]
+        if len(defs) != 1:
+            return None
+        base = _merge_order(fn, defs[0].value, depth + 1)
+        if base is None:
+            return None
+        ups = [c for c in ast.walk(fn) if isinstance(c, ast.Call) and isinstance(c.func, ast.Attribute) and c.func.attr == "update" and norm(c.func.value) == e.id and len(c.args) == 1]
+        ups.sort(key=lambda c: (c.lineno, c.col_offset))
+        return base + [c.args[0] for c in ups if c.lineno > defs[0].lineno]
+    return None
+
+
+def _role(e: ast.AST) -> Optional[str]:
+    """'G' for the spec's globals, 'L' for the bindings of this evaluation - read off the names this code base uses for them."""
+    t = norm(e).lower()
+    if "global" in t:
+        return "G"
+    if "local" in t or "scope" in t or "binding" in t:
+        return "L"
+    return None
 
 
 def _persistent_namespace(mod, call: ast.Call, ns: Optional[ast.AST]) -> Optional[str]:
@@ -1025,6 +1082,8 @@ _G4 = "language/FandangoParser.g4"
 MUTANTS = [
     M("evaluation-namespace-kept-between-evaluations", "src/fandango/constraints/constraint.py", "        return eval(expression, {**global_variables, **local_variables})\n",
       "        entry = Constraint._namespaces.get(id(global_variables))\n        if entry is None:\n            entry = (global_variables, dict(global_variables))\n            Constraint._namespaces[id(global_variables)] = entry\n        namespace = entry[1]\n        namespace.update(local_variables)\n        return eval(expression, namespace)\n", "R08-k"),
+    M("globals-override-bound-variables", "src/fandango/constraints/constraint.py", "        return eval(expression, {**global_variables, **local_variables})\n", "        namespace = dict(local_variables)\n        namespace.update(global_variables)\n        return eval(expression, namespace)\n", "R08-k"),
+    M("generator-globals-override-parameters", "src/fandango/language/grammar/grammar.py", "            generator.call, {**self._global_variables, **local_variables}\n", "            generator.call, {**local_variables, **self._global_variables}\n", "R08-k"),
     M("placeholders-as-eval-locals", "src/fandango/constraints/constraint.py", "        return eval(expression, {**global_variables, **local_variables})\n", "        return eval(expression, global_variables, local_variables)\n", "R08-k"),
     M("generator-parameters-as-eval-locals", "src/fandango/language/grammar/grammar.py", "            generator.call, {**self._global_variables, **local_variables}\n", "            generator.call, self._global_variables, local_variables\n", "R08-k"),
     M("fstring-text-from-token-texts", _CV, "            text = stream.getText(begin, end)\n", "            text = \"\".join(t.getText() for t in tokens_between(begin, end))\n            trees.append(ast.Constant(value=text.getText()))\n", "R08-i"),
@@ -1053,6 +1112,7 @@ MUTANTS = [
       "            arg, d, s, m = self.visitParam_with_default(param)\n            args.append(arg)\n            if d is not None and ctx.star_etc():\n                defaults.append(d)\n", "R08-c"),
 ]
 TWINS = [
+    M("twin-namespace-merged-with-the-union-operator", "src/fandango/constraints/constraint.py", "        return eval(expression, {**global_variables, **local_variables})\n", "        namespace = global_variables | local_variables\n        return eval(expression, namespace)\n", None),
     M("twin-merged-namespace-in-a-local", "src/fandango/constraints/constraint.py", "        return eval(expression, {**global_variables, **local_variables})\n", "        namespace = dict(global_variables)\n        namespace.update(local_variables)\n        return eval(expression, namespace)\n", None),
     M("twin-fstring-stream-in-a-local", _CV, "            text = stream.getText(begin, end)\n", "            source = stream\n            text = source.getText(begin, end)\n", None),
     M("twin-async-flag-as-bool", _CV, "        is_async = True if ctx.ASYNC() else False  # needed for None check\n", "        is_async = bool(ctx.ASYNC())\n", None),
